@@ -89,11 +89,13 @@ def stepEOL (p : PS) : PS :=
   | .quoteInQuoted => p.saveField .startRecord
   | .eatCRNL => { p with st := .startRecord }
 
-def stepLine (d : Char) (p : PS) : Str → Option PS
-  | [] => some (stepEOL p)
-  | c :: cs => match step d p c with
-    | none => none
-    | some p' => stepLine d p' cs
+/-- feed the characters of (part of) a line -/
+def stepChars (d : Char) : PS → Str → Option PS
+  | p, [] => some p
+  | p, c :: cs => (step d p c).bind (fun p' => stepChars d p' cs)
+
+/-- one input line: its characters, then the end-of-line sentinel -/
+def stepLine (d : Char) (p : PS) (l : Str) : Option PS := (stepChars d p l).map stepEOL
 
 /-- `list(csv.reader(lines, delimiter=d, skipinitialspace=True))`; `none` is `_csv.Error`.
 `p` is the state carried over from the previous line (a quoted field may span lines). -/
